@@ -33,7 +33,7 @@ import fragmenter  # noqa: E402
 DRIVERS = ["Links"]
 TABLES = False
 LEVEL = "proof"
-RULE = ("(a) path pairs: exhaustive over a component alphabet (spaces, %, #, non-ASCII, dots) up to depth 3 per side; "
+RULE = ("(a) path pairs: exhaustive over a component alphabet (spaces, %, #, non-ASCII, dots, names that are string prefixes of each other) up to depth 3 per side; "
         "(b) link grammar: all strings up to length 4 (quick) / 5 (thorough) over {' ','#','a','-','%','/','é','\\n','\\t',':'} "
         "plus seeded longer ones; (c) split_links: all token sequences up to length 4 over a token alphabet with every "
         "Python white-space class; (d) loaders: every corpus model and seeded fragment layouts (1-4 nested cuts, fragment "
@@ -79,9 +79,9 @@ IDATTRS = [("id", "id"), ("uid", "uid"), (XMI_ID, "xmi:id")]
 VISUAL = (".aird", ".airdfragment")
 SEMANTIC = (".capella", ".capellafragment", ".melodyfragment", ".melodymodeller")
 
-COMPS = ["a", "b c", "é", "100%", "x#y", "d.e", "platform:", "..."]
+COMPS = ["a", "a b", "é", "100%", "x#y", "a.e", "platform:", "...", "ab", "b c"]  # incl. string prefixes of each other
 FILES = ["m.capella", "M N.capella", "ü%.capellafragment", "v.aird", "#1.capellafragment"]
-DIRS = ["fragments", "a b", "é", "100%", "x#y", "d.e", "Ünï cödé"]
+DIRS = ["fragments", "a b", "é", "100%", "x#y", "d.e", "Ünï cödé", "a", "fragments 2"]  # incl. string prefixes of each other
 FNAMES = ["LA", "Logical Ärch", "100% #1", "f.g", "x y z"]
 
 DATA = "tests/data"
